@@ -32,7 +32,9 @@ RULE = ('a rules or views model is rendered under a seeded layout (comments, bla
         'and given to the loader in a fresh process; a sample is also put into a budget and run through `tally up` / `tally diag`, together with '
         'EACCES / EIO / invalid-UTF-8 read faults.  distinct_nontrivial counts distinct (file kind, corruption class, position class, observer) tuples.')
 
-INVALID_EXPRS = ['contains("X"', 'amount > ', 'contains("X) and amount > 1', 'lambda: 1', 'import os', 'amount >> 2', '[1, 2]', 'amount > 1)']
+INVALID_EXPRS = ['contains("X"', 'amount > ', 'contains("X) and amount > 1', 'lambda: 1', 'import os', 'amount >> 2', '[1, 2]', 'amount > 1)',
+                 # operators no reading of the language has (matrix product, bit operations, identity)
+                 'amount @ 2 > 1', '~1 == -2', 'amount ^ 1 > 0', 'amount << 1 > 0', 'amount is None', 'amount & 1 > 0']
 
 
 def runs(tier):
